@@ -203,6 +203,7 @@ def site_lines(doc, before_state, lab):
 
 
 self_kinds = {}
+VALUE_KINDS = ['attr', 'attr', 'attr', 'attr', 'rename', 'rename', 'save', 'contributors', 'default_scene']
 
 
 def capture(doc, lab):
@@ -217,7 +218,7 @@ def capture(doc, lab):
     return st
 
 
-def run_history(kind, seed, nops, ops=None, want_sites=False):
+def run_history(kind, seed, nops, ops=None, want_sites=False, kinds=None):
     """apply an edit history and evaluate the oracle. Returns dict(ok, what, hist, site=(lines, actual, names))"""
     import collada
     doc, gen = base_doc(kind, seed)
@@ -225,7 +226,7 @@ def run_history(kind, seed, nops, ops=None, want_sites=False):
     removed_ids, idx = set(), 0
     for i in (ops if ops is not None else range(nops)):
         try:
-            d = editgen.apply(doc, seed, i, gen)
+            d = editgen.apply(doc, seed, i, gen, kinds)
         except Exception as e:
             return dict(ok=True, skipped='edit raised %s' % type(e).__name__, hist=hist)
         if d:
@@ -238,23 +239,29 @@ def run_history(kind, seed, nops, ops=None, want_sites=False):
         doc.save()
         if want_sites:
             out['site'] = site_lines(doc, before_state, lab)
+        from collada.xmlutil import writeXML
+        b1 = io.BytesIO()
+        writeXML(doc.xmlnode, b1)
+        once = b1.getvalue()
         buf = io.BytesIO()
         doc.write(buf)
     except Exception as e:
         out.update(ok=False, what='write of the edited model raised %s: %s' % (type(e).__name__, str(e)[:200]), sig='write:' + type(e).__name__)
         return out
     data = buf.getvalue()
-    try:
-        d1 = collada.Collada(io.BytesIO(data))
-    except Exception as e:
-        out.update(ok=False, what='written document does not load: %s: %s' % (type(e).__name__, str(e)[:200]), sig='reload:' + type(e).__name__)
-        return out
-    got = strip(snap.snapshot(d1, errors=False))
-    df = snap.diff(expected, got)
-    if df:
-        where = re.sub(r'\[\d+\]', '[]', df[0].split(':')[0])
-        out.update(ok=False, what='reloaded model differs from the edited model at %s' % '; '.join(df[:4]), sig='diff:' + where)
-        return out
+    # the element tree as ONE save() left it (write() saves again, which would hide a save that lags one call behind)
+    for data_, label in ((once, 'after a single save() '), (data, '')):
+        try:
+            d1 = collada.Collada(io.BytesIO(data_))
+        except Exception as e:
+            out.update(ok=False, what='%swritten document does not load: %s: %s' % (label, type(e).__name__, str(e)[:200]), sig='reload:' + type(e).__name__)
+            return out
+        got = strip(snap.snapshot(d1, errors=False))
+        df = snap.diff(expected, got)
+        if df:
+            where = re.sub(r'\[\d+\]', '[]', df[0].split(':')[0])
+            out.update(ok=False, what='%sreloaded model differs from the edited model at %s' % (label, '; '.join(df[:4])), sig='diff:' + where)
+            return out
     if d1.errors:
         out.update(ok=False, what='reload recorded errors %s' % [type(e).__name__ for e in d1.errors], sig='reload-errors')
         return out
@@ -289,11 +296,16 @@ def run(ctx):
     bases = ['constructed', 'reloaded'] + CORPUS
     site_lines_all, site_meta = [], []
     reported = set()
-    for h in range(nhist):
+    nvalue = ctx.n(400, 8000)
+    for h in range(nhist + nvalue):
         kind = bases[h % len(bases)] if h % 3 == 2 else ('constructed' if h % 3 == 0 else 'reloaded')
         seed = ctx.rng.randrange(10 ** 9)
         nops = ctx.rng.randint(1, maxops)
-        res = run_history(kind, seed, nops, want_sites=(h % 2 == 0))
+        # the second block of histories only changes values (attributes, renames, contributors) with saves in between
+        kinds = None if h < nhist else VALUE_KINDS
+        if kinds:
+            nops = ctx.rng.choice([1, 2, 3, 6])
+        res = run_history(kind, seed, nops, want_sites=(h % 2 == 0 and h < nhist), kinds=kinds)
         ctx.case(dict(base=kind, seed=seed, nops=nops, hist=res.get('hist')), nontrivial=len(res.get('hist', [])) >= 3)
         ctx.count('base:' + ('corpus' if kind.endswith(('.dae', '.DAE')) else kind))
         for d in res.get('hist', []):
@@ -304,10 +316,10 @@ def run(ctx):
         if not res['ok']:
             if res['sig'] not in reported:
                 reported.add(res['sig'])
-                ops = shrink(kind, seed, nops, res['sig'])
-                r2 = run_history(kind, seed, nops, ops=ops)
+                ops = shrink(kind, seed, nops, res['sig'], kinds)
+                r2 = run_history(kind, seed, nops, ops=ops, kinds=kinds)
                 ctx.violation('c02:' + res['sig'], r2.get('what', res['what']) + ' | history: %s' % r2.get('hist'),
-                              dict(kind='history', base=kind, seed=seed, nops=nops, ops=ops))
+                              dict(kind='history', base=kind, seed=seed, nops=nops, ops=ops, kinds=kinds))
             continue
         if 'site' in res:
             lines, actual, names = res['site']
@@ -352,11 +364,11 @@ def run(ctx):
     ctx.assumptions.append('edit histories keep the model self-consistent (vlib/editgen.py); numeric comparison modulo the seven digits written')
 
 
-def shrink(kind, seed, nops, sig):
+def shrink(kind, seed, nops, sig, kinds=None):
     ops = list(range(nops))
 
     def fails(o):
-        r = run_history(kind, seed, nops, ops=o)
+        r = run_history(kind, seed, nops, ops=o, kinds=kinds)
         return (not r['ok']) and r.get('sig') == sig
     changed = True
     while changed and len(ops) > 0:
@@ -374,7 +386,7 @@ def replay(ctx, rep):
         c = rep['line']
         print('  kernel divergence recorded for %r' % c)
         return False
-    r = run_history(rep['base'], rep['seed'], rep['nops'], ops=rep.get('ops'))
+    r = run_history(rep['base'], rep['seed'], rep['nops'], ops=rep.get('ops'), kinds=rep.get('kinds'))
     if not r['ok']:
         print('  ' + r['what'])
     return not r['ok']
